@@ -181,6 +181,32 @@ claim(
     "int()/float()/str() of CPython convert literal lexemes (the model keeps lexemes); parsita's PEG semantics are modelled (lexer + recursive descent), tied by the correspondence.",
 )
 
+claim(
+    "C06",
+    "PARTIAL. Theorems on the ported C printer (string-for-string correspondence with ir_to_c_expression / ir_to_c_statement on every "
+    "run): `cprint_tokens` (the printed string is the rendering of a token list), `cprint_parse` (for every Layered expression the "
+    "tokens parse, under ISO C precedence, to `leftAssoc e`), `cprint_parse_exact` (Layered and LeftNested: to exactly `e`), "
+    "`cparse_sound` (w.r.t. the textbook C grammar), witnesses that right-nested chains are re-associated (finding F10) and that "
+    "ill-layered trees misparse. Certificates Layered/LeftNested/hoistConsistent are evaluated on every emitted kernel. Three-way "
+    "runs: gcc (cffi), LLVM MCJIT and the Lean IR machine (Lean Float) must give bit-identical arrays on general finite doubles.",
+    "Lean 4 print/parse theorem for the ported C printer + per-kernel certificates + bit-identity runs of C, LLVM and the IR machine",
+    "DESIGN.md section 6 C06",
+    "gcc, LLVM and the hardware are not modelled; their agreement is sampled. The LLVM lowering (ir_to_llvm) is not ported; it is compared by execution only.",
+)
+claim(
+    "C08",
+    "PARTIAL. The whole front and middle of the compiler is ported and compared exactly with the code on every run (parse, validate, "
+    "make_problem, desugar, to_iteration_graphs/best_algorithm, the abstract interpretation `lowerable` of generate_ir, and generate_ir "
+    "itself: `COMPILE` reproduces the emitted IR tree). All these Lean functions are total (accepted by the termination checker): the "
+    "model cannot hang. Theorems: the diagonal refusal happens only for a repeated index and never otherwise "
+    "(`bestAlgorithm_diagonal_only_if`, `bestAlgorithm_no_diagonal`), every candidate graph is well scoped and shadow-free, and denotes "
+    "the assignment (`toIterationGraphs_denote_source`). On the real code every request must return code or a documented typed error "
+    "within a wall limit; emitted C is compiled with gcc -fsyntax-only, emitted LLVM is verified; the CLI must exit 0/1 without traceback.",
+    "Total Lean ports of the compiler stages with exact correspondence + refusal-classification theorems + toolchain acceptance runs",
+    "DESIGN.md section 6 C08",
+    "Toolchain acceptance (gcc, llvmlite verify) is an external oracle. Findings F3 (internal NotImplementedError) and F13 (reserved identifiers) are known.",
+)
+
 ALL = [f"C{n:02d}" for n in range(1, 17)]
 for p in ALL:
     if p not in CHECKS:
